@@ -20,7 +20,10 @@ META = {
         'and rectangle splitting steps by exactly one; (tuple) the areas of '
         'every reference set that outlives an expression are an immutable '
         'tuple (operators extend them with += / +, which must re-bind, not '
-        'write into an operand); (value) in value extraction the fragments a '
+        'write into an operand); (cachefill) the cached value of a '
+        'reference set is stored only by the property that computes it and '
+        'reset where the areas change - no operator assembles it from the '
+        'cached values of its operands; (value) in value extraction the fragments a '
         'partial cover leaves are re-matched against all value blocks '
         '(fix-point loop); (nodup) set difference '
         'removes from each area of the left operand what earlier areas already '
@@ -328,11 +331,12 @@ def rule_inclusive(ctx):
                                         f.qualname, norm_src(n)), file=m.rel,
                                     function=f.qualname, line=n.lineno)
     # (f) row bounds are kept as strings: ordering them needs int()
+    conv_of = {}
     for m in scope:
         for f in m.all_funcs:
             # local dicts whose row entries were converted in place:
             #   X[k] = int(X[k])
-            converted = set()
+            converted = conv_of.setdefault(f.fq, set())
             for n in own_nodes(f):
                 if isinstance(n, ast.Assign) and isinstance(
                         n.targets[0], ast.Subscript) and isinstance(
@@ -373,6 +377,32 @@ def rule_inclusive(ctx):
                                 kws[k].func, ast.Name) and
                             kws[k].func.id == 'int' for k in ('r1', 'r2')):
                         converted.add(n.targets[0].id)
+    # a private helper that is always handed such a converted mapping sees
+    # integers in its parameter too
+    for m in scope:
+        for h in m.all_funcs:
+            if not (h.name.startswith('_') and not h.name.startswith('__')
+                    and h.parent is None):
+                continue
+            hp = h.params[1:] if h.cls is not None else h.params
+            sites = []
+            for m2 in scope:
+                for f in m2.all_funcs:
+                    for n in own_nodes(f):
+                        if isinstance(n, ast.Call) and call_name(n) == h.name \
+                                and any(not e.is_ext and e.dst is h
+                                        for e in ctx.cg._resolve_callee(
+                                            f, n.func, n, 'call')):
+                            sites.append((f, n))
+            for i, prm in enumerate(hp):
+                if sites and all(
+                        i < len(c.args) and isinstance(c.args[i], ast.Name)
+                        and c.args[i].id in conv_of.get(f.fq, ())
+                        for f, c in sites):
+                    conv_of.setdefault(h.fq, set()).add(prm)
+    for m in scope:
+        for f in m.all_funcs:
+            converted = conv_of.get(f.fq, set())
 
             def raw_row(e, converted=converted):
                 return isinstance(e, ast.Subscript) and isinstance(
@@ -449,25 +479,47 @@ def rule_inclusive(ctx):
                                          ('r1', 'r2', 1), ('r2', 'r1', -1)])
         except Exception:
             ok = False
-    # the cut: <overlap>[side] - step  (for rows through int())
-    subs = [n for n in own_nodes(sp) if isinstance(n, ast.BinOp) and isinstance(
-        n.op, ast.Sub) and isinstance(n.right, ast.Name) and isinstance(
-        n.left, (ast.Subscript, ast.Call))]
-    loopvars = set()
-    for n in own_nodes(sp):
-        if isinstance(n, ast.For) and isinstance(n.target, ast.Tuple) and \
-                len(n.target.elts) == 3:
-            loopvars = {e.id for e in n.target.elts if isinstance(e, ast.Name)}
-    steps = [n for n in subs if n.right.id in loopvars]
-    if ok and len(steps) >= 2:
+    # the cut: <overlap>[side] - step  (for rows through int()), in _split or
+    # in a private helper the loop hands the step to
+    from ..util import with_helpers
+    steps = []
+    for lp_ in own_nodes(sp):
+        if not (isinstance(lp_, ast.For) and isinstance(
+                lp_.target, ast.Tuple) and len(lp_.target.elts) == 3 and all(
+                isinstance(e, ast.Name) for e in lp_.target.elts)):
+            continue
+        stepvar = lp_.target.elts[2].id
+        for n in ast.walk(lp_):
+            if isinstance(n, ast.BinOp) and isinstance(
+                    n.op, (ast.Sub, ast.Add)) and isinstance(
+                    n.right, ast.Name) and n.right.id == stepvar:
+                steps.append(n)
+            if isinstance(n, ast.Call):
+                for h in with_helpers(ctx, sp)[1:]:
+                    if call_name(n) != h.name:
+                        continue
+                    hp = h.params[1:] if h.cls is not None else h.params
+                    for i_, a in enumerate(n.args):
+                        if isinstance(a, ast.Name) and a.id == stepvar and \
+                                i_ < len(hp):
+                            steps += [m for m in own_nodes(h) if isinstance(
+                                m, ast.BinOp) and isinstance(
+                                m.op, (ast.Sub, ast.Add)) and isinstance(
+                                m.right, ast.Name) and m.right.id == hp[i_]]
+    added = [n for n in steps if isinstance(n.op, ast.Add)]
+    if ok and len(steps) >= 1 and not added:
         rr.ok('_split cuts the remainder at (overlap bound -/+ 1) on each of '
               'the four sides', RANGES)
+    elif ok and not steps:
+        raise AnalysisError('C06.inclusive: where _split applies the step of '
+                            'its table was not found')
     else:
         rr.fail(key_of(sp, 'split step'),
                 '_split no longer cuts the four remainders exactly one cell '
-                'outside the overlap (table %s)' % (
-                    norm_src(it) if it is not None else '?'), file=RANGES,
-                function='_split', line=sp.lineno)
+                'outside the overlap (table %s%s)' % (
+                    norm_src(it) if it is not None else '?',
+                    '; the step is added, not subtracted' if added else ''),
+                file=RANGES, function='_split', line=sp.lineno)
     # merge adjacency: base.r2 + 1 >= rng.r1 ; base.n2 + 1 == rng.n1
     from ..util import path_conditions
     for fn, want, key_ in (
@@ -528,6 +580,17 @@ def _tuple_kind(ctx, f, e, depth=0, seen=()):
             return True
         if e.func.id in ('list', 'set', 'sorted', 'map', 'filter', 'dict'):
             return False
+    if isinstance(e, ast.Call) and isinstance(e.func, (ast.Name,
+                                                       ast.Attribute)):
+        # a package function: the kind of what it returns
+        r_ = ctx.cg.resolve_name_expr(f, e.func)
+        if r_ and r_[0] == 'func' and isinstance(r_[1].node, ast.FunctionDef):
+            rets = [n.value for n in own_nodes(r_[1]) if isinstance(
+                n, ast.Return) and n.value is not None]
+            if rets:
+                k = comb([_tuple_kind(ctx, r_[1], v, depth + 1, ())
+                          for v in rets])
+                return None if k == 'N' else k
     if isinstance(e, ast.Attribute) and e.attr == 'ranges':
         return True  # the invariant being established
     if isinstance(e, ast.Subscript) and isinstance(e.slice, ast.Slice):
@@ -621,6 +684,66 @@ def rule_tuple(ctx):
     return rr
 
 
+def rule_cachefill(ctx):
+    """`Ranges._value` caches what the `value` property computes from the
+    areas and value blocks.  It is written only there, and reset to sh.NONE
+    where the areas change: anything else that fills it (an operator
+    assembling the value of its result from the cached values of its
+    operands) by-passes the one place that knows how a value is put
+    together - areas that overlap, are empty or were never read."""
+    rr = RuleResult('C06', 'C06.cachefill', 'WHO',
+                    'the cached value of a reference set is filled only by '
+                    'the property that computes it', floor=2)
+    p = ctx.project
+    R = p.cls(RANGES, 'Ranges')
+    owner = [m for m in R.methods.values() if m.name == 'value' or (
+        m.name in ('_sweep_values',))]
+    # the computing function(s): the `value` property and its private helpers
+    from ..util import with_helpers
+    allowed = set()
+    for m in R.methods.values():
+        if m.name == 'value':
+            for g in with_helpers(ctx, m):
+                allowed.add(g.fq)
+    if not allowed:
+        raise AnalysisError('C06.cachefill: Ranges.value not found')
+    for f in sorted(p.functions.values(), key=lambda f: f.fq):
+        for n in own_nodes(f):
+            tg = []
+            if isinstance(n, ast.Assign):
+                tg = n.targets
+            elif isinstance(n, (ast.AugAssign, ast.AnnAssign)):
+                tg = [n.target]
+            for t in tg:
+                if not (isinstance(t, ast.Attribute) and t.attr == '_value'):
+                    continue
+                rr.instances += 1
+                val = getattr(n, 'value', None)
+                reset = val is not None and isinstance(
+                    val, (ast.Name, ast.Attribute)) and \
+                    ctx.cg.resolve_name_expr(f, val) == ('ext', 'schedula.NONE')
+                if reset:
+                    rr.ok('%s resets the cached value' % f.qualname,
+                          '%s:%d' % (f.module.rel, n.lineno))
+                elif f.fq in allowed:
+                    rr.ok('%s (the computing property) stores the value it '
+                          'computed' % f.qualname,
+                          '%s:%d' % (f.module.rel, n.lineno))
+                else:
+                    rr.fail(key_of(f, 'fills the cached value of a reference '
+                                      'set'),
+                            '%s stores `%s` into `%s`: the cached value of a '
+                            'reference set is filled outside Ranges.value, so '
+                            'what a later read returns depends on whether - '
+                            'and in which state - the operands had been read '
+                            'before' % (f.qualname, norm_src(val)[:50]
+                                        if val is not None else '?',
+                                        norm_src(t)),
+                            file=f.module.rel, function=f.qualname,
+                            line=n.lineno)
+    return rr
+
+
 def rule_value(ctx):
     """Value extraction: an area that one value block covers only in part is
     split, and the remaining fragments have to be matched against *every* value
@@ -678,6 +801,25 @@ def rule_value(ctx):
     if inner_for is None:
         raise AnalysisError('Ranges.value: _split is not inside a loop over '
                             'the value blocks')
+    f0 = p.func(RANGES, 'Ranges.value')
+    if fix is None and f is not f0:
+        # the scan lives in a helper: the repetition may be the caller's
+        # `while` around (or testing) the call of that helper, with the list
+        # of fragments handed over as an argument
+        prm = f.params[1:] if f.cls is not None else f.params
+        for w_ in own_nodes(f0):
+            if not isinstance(w_, ast.While):
+                continue
+            for c in ast.walk(w_):
+                if isinstance(c, ast.Call) and call_name(c) == f.name and \
+                        work in prm and prm.index(work) < len(c.args):
+                    a = c.args[prm.index(work)]
+                    if isinstance(a, ast.Name) and any(
+                            isinstance(x, ast.Name) and x.id == a.id
+                            for x in ast.walk(w_.test)) or (
+                            isinstance(w_.test, ast.Constant) and
+                            w_.test.value):
+                        fix = w_
     if fix is not None:
         rr.ok('the loop over the value blocks is repeated while `%s` still '
               'holds fragments (line %d)' % (work, fix.lineno),
@@ -817,4 +959,5 @@ def run(ctx):
     shared = S(rule_global, ctx, 'C06', 'C06.shared', floor=8,
                          only=lambda f: f.module.rel == RANGES)
     return [S(rule_ops, ctx), S(rule_lattice, ctx), S(rule_inclusive, ctx),
-            S(rule_nodup, ctx), S(rule_tuple, ctx), S(rule_value, ctx), shared]
+            S(rule_nodup, ctx), S(rule_tuple, ctx), S(rule_value, ctx), shared,
+            S(rule_cachefill, ctx)]
